@@ -80,7 +80,7 @@ func (t *SType) String() string {
 		return "[]" + t.Elem.String()
 	case "set":
 		return "set[" + t.Elem.String() + "]"
-	case "map":
+	case "map", "gomap":
 		return "map[" + t.Key.String() + "]" + t.Elem.String()
 	}
 	return "?"
@@ -283,6 +283,13 @@ func (p *sparser) typ() *SType {
 		k := p.typ()
 		p.expect("]")
 		return &SType{Kind: "map", Key: k, Elem: p.typ()}
+	case t.kind == "id" && t.s == "gomap":
+		// gomap[K]V: a reference to a Go map (an object of the map heap), as opposed to the total ghost map[K]V
+		p.next()
+		p.expect("[")
+		k := p.typ()
+		p.expect("]")
+		return &SType{Kind: "gomap", Key: k, Elem: p.typ()}
 	case t.kind == "id":
 		p.next()
 		name := t.s
